@@ -49,7 +49,7 @@ CHECKS = {
                 'constructor field or rule premise, side conditions of MP and Generalization, id/plug pairing of Instantiate) are the same '
                 'in the Serializing/Stateful/Basic interpreter chain and in the arm of execute_instructions; claims are consumed LIFO iff '
                 'published reversed; axiom schemas agree three-way; phases run in order over one interpreter. Necessary conditions only: '
-                'that a concrete module is accepted is an execution and is not decided.',
+                'that a concrete module is accepted is an execution and is not decided. Also: the memoiser\'s slot budget is 256 - len(memory) with one slot per suggestion (one-byte Load operand); generator and checker compute Instantiate / resolved substitutions by the same textbook table (C11\'s Python half and C05\'s Rust half).',
         'note': 'Trusted: python ast, rustc MIR, spec/axioms.py. Symbols are identified with their serializer numbers (injectivity: C03).',
         'design_ref': 'DESIGN.md section 3, C02',
     },
@@ -70,7 +70,7 @@ CHECKS = {
         'text': 'Writer/reader agreement: every opcode the serializer can write has a decoder branch with the same operand layout that '
                 'replays the call which writes that opcode, reading distinct stack slots at the positions the tracker binds; Publish is '
                 'replayed per phase; the decode loop ends only at end of input; unknown bytes raise. Five genuine gaps are recorded as '
-                'known findings. Equality of the replayed state on concrete modules is not observed.',
+                'known findings. Equality of the replayed state on concrete modules is not observed. writer-lossless: in every encoding case each argument of the call is written, tied to a stack slot by the tracker, or forced to its default by the condition selecting the case (24 cases).',
         'note': 'Trusted: python ast. Known findings: no decoder branch for Quantifier/Generalization, constraint element types, Publish in gamma/proof phases.',
         'design_ref': 'DESIGN.md section 3, C14',
     },
@@ -98,7 +98,7 @@ CHECKS = {
                 'yields exactly the documented conclusion and has passed a raising destructuring of the premise as an implication and the '
                 'side condition of the rule, so inapplicable premises are refused on all paths (not on sampled ones); all 15 overrides in '
                 'the interpreter classes pass the same arguments on exactly once and return that value; Pattern.extract/unwrap raise on a '
-                'non-implication; ProofExp repeats the antecedent check. The freshness judgement is C06.',
+                'non-implication; ProofExp repeats the antecedent check. The freshness judgement is C06. The conclusion of schema instantiation is `conclusion.instantiate(delta)`, so instantiate / apply_esubst / apply_ssubst of every pattern class are compared with the textbook table here too (C11\'s Python half), including `metavars().isdisjoint(delta)` shortcuts read as \'child unchanged\'.',
         'note': 'Trusted: python ast; assert statements enabled; evar_is_free soundness is C06.',
         'design_ref': 'DESIGN.md section 3, C07',
     },
@@ -109,7 +109,7 @@ CHECKS = {
                 'InterpreterTransformer forwards each of the 24 interface methods (and both phase transitions) once, with the same '
                 'arguments, returning the forwarded value; the instantiation optimiser returns BasicInterpreter\'s value; ProofThunk '
                 'returns only after dynamic == static conclusion; each ProofExp primitive advertises the term BasicInterpreter computes; '
-                'sibling empty-map guards agree. Joint behaviour on concrete expressions is not observed.',
+                'sibling empty-map guards agree. Joint behaviour on concrete expressions is not observed. Interpreter.pattern interprets the operands of each constructor in the order of the stack slots the tracking interpreters check (walk-order, 8 arms); the tracking interpreters compare terms with ==, never by identity.',
         'note': 'Trusted: python ast; the listed construction sites were confirmed by reading.',
         'design_ref': 'DESIGN.md section 3, C08',
     },
@@ -131,7 +131,7 @@ CHECKS = {
         'text': 'Every dispatcher on concrete pattern constructors in pattern.py and the notation libraries (8 sites) expands a notation '
                 'node and re-dispatches; the notation node\'s evar_is_free, apply_esubst, apply_ssubst and __eq__ are the operation on the '
                 'expansion (non-delegating bodies are decided only through necessary conditions, else the run is analysis-broken); '
-                'simplify is body.instantiate(inst). Congruence at every nesting depth beyond these facts is not evaluated.',
+                'simplify is body.instantiate(inst). Congruence at every nesting depth beyond these facts is not evaluated. A dispatcher must re-enter itself (or loop) on `x.simplify()`: expanding one level and falling through is a violation, since a notation may be defined as an application of another notation.',
         'note': 'Trusted: python ast. __eq__/__hash__ incoherence is reported as advisory only.',
         'design_ref': 'DESIGN.md section 3, C12',
     },
@@ -142,7 +142,7 @@ CHECKS = {
                 'ever tested by truthiness where its type has falsy inhabitants (empty dict, empty tuple, 0): types come from the resolved '
                 'callee\'s annotation; plus the shape of match_single (both sides destructured per constructor, bound metavariables '
                 'compared not rebound, substitution threaded, notation expanded first). Decides that the empty substitution / id 0 is '
-                'never taken for failure; soundness/completeness as equations are not evaluated.',
+                'never taken for failure; soundness/completeness as equations are not evaluated. `match(equations)` hands every equation to match_single with the accumulated substitution and keeps the result; no equation is skipped and a failure fails the system.',
         'note': 'Trusted: return annotations; two triaged intended emptiness tests.',
         'design_ref': 'DESIGN.md section 3, C13',
     },
@@ -154,19 +154,19 @@ CHECKS = {
                 'interpreter.pattern(<loop variable>); the declared lists are append-only; optimisers neither override nor alter '
                 'publishing; the serializer has one symbol table (created in __init__, ids len(table) under a not-in guard, never '
                 'shrunk) shared by the three files through one serializer; all 26 writes are unmasked bytes([...]) so ids above 255 '
-                'raise. The emitted files are not decoded and compared.',
+                'raise. The emitted files are not decoded and compared. A write through a byte-rendering helper of the repository counts as bounded only if the helper is `bytes(<its parameter>)` (a masking helper is a violation); `table.setdefault(name, len(table))` is read as the lookup-or-assign idiom.',
         'note': 'Trusted: python ast; the MAY_PUBLISH table confirmed by reading.',
         'design_ref': 'DESIGN.md section 3, C03',
     },
     'C09': {
         'level': 'other',
-        'technique': 'schema typing of the prover glue under stage contracts, shape (refinement) typing of to_cnf, fold-direction rule, def-use / reaching-store analysis over the saturation loop (ast)',
-        'text': 'Four structural clauses. (3) to_cnf returns a term in conjunctive normal form on every path, by induction on its recursion (shape typing LIT < CLAUSE < CNF with the isinstance tests as refinements). (4) The proofs of trivial clauses are folded in the nesting order of clause_conjunctionto_pattern. (1) The glue of prove_tautology is type-checked like a lemma under the contracts of the stages: on '
+        'technique': 'schema typing of the prover glue and of each stage against its contract (inductive step over symbolic path evaluation), shape (refinement) typing of to_cnf, fold-direction rule, linear inversion of the literal numbering, def-use / reaching-store analysis over the saturation loop (ast)',
+        'text': 'Five structural clauses. (3) to_cnf returns a term in conjunctive normal form on every path, by induction on its recursion (shape typing LIT < CLAUSE < CNF with the isinstance tests as refinements). (4) The proofs of trivial clauses are folded in the nesting order of clause_conjunctionto_pattern. (1) The glue of prove_tautology is type-checked like a lemma under the contracts of the stages: on '
                 'each returning path the proof returned with True concludes literally the pattern, with False its negation. (2) A necessary '
                 'clause of completeness of the resolution stage: the nested saturation loop forms every pair (same growing '
                 'list in both loops, diagonal guard, resolvents rejoin the list) and no assignment in the inner loop rebinds the outer '
                 'loop element on a path that reads it again. The stage lemmas are schema-checked under C10. Equivalence of each normal '
-                'form, proof reconstruction and "declines only when contingent" are data-dependent and are NOT decided.',
+                'form, proof reconstruction and "declines only when contingent" are data-dependent and are NOT decided. (5) Stage contracts, as inductive steps: to_conj_form (12 returning paths), propag_neg (7) and to_cnf (6) return a form with proofs of both implications between the input and the form given that their recursive calls do (negation-flag flips followed, run-time matching transitivity decided on terms); build_proof_from_hint returns the resolvent with a proof of CONJ -> resolvent in each of the four emptiness cases given its parents do; the literal numbering of to_clauses is inverted by id_to_metavar. These are the contracts clause (1) assumes of the stages; to_clauses (loops over run-time lengths), simplify_clause and merge_clauses stay assumptions.',
         'note': 'Trusted: python ast; the stage contracts as documented in tautology.py. Four clauses; the decision-procedure property as a whole is out of reach of static analysis.',
         'design_ref': 'DESIGN.md section 3, C09',
     },
@@ -176,7 +176,7 @@ CHECKS = {
         'text': 'Two structural clauses of the compressed-proof decoder: the letter tables are exactly A..T->1..20 and U..Y->1..5 with '
                 'weights 20*5^i; mandatory hypotheses are numbered 1,2,.. from the insertion-ordered list of floating hypotheses '
                 '(database order), never from a set (hash-seed dependent) nor merely sorted. The numeric decoding of all step numbers, '
-                'Z placement and whitespace layouts are not decided.',
+                'Z placement and whitespace layouts are not decided. Labels registered from `text.split(sep)` with an explicit separator must filter empty tokens (the empty list `( )` is legal); where numbers past the label list are resolved (translate.exec_proof) every Z saves and remembers the top unconditionally and number n reloads slot n - len(labels) - 1 (shared with C16).',
         'note': 'Trusted: python ast; _floating_patterns is appended in database order.',
         'design_ref': 'DESIGN.md section 3, C15',
     },
@@ -187,7 +187,7 @@ CHECKS = {
                 'consumed order-insensitively (automatic rules or a reasoned triage entry) or is unreachable from the serialisation / '
                 'translation entry points; uses of id/hash/directory order/clock/randomness/environment are enumerated and triaged; no '
                 'mutable default arguments, no module- or class-level mutable state written from functions, no cache reading instance '
-                'state. Byte equality of outputs is never observed.',
+                'state. Byte equality of outputs is never observed. Module-level or class-level instances of repository classes whose methods mutate their own attributes, annotated class-level containers mutated through instances, and sequences extended by a set are violations.',
         'note': 'Trusted: annotations for set-typedness; spec/order_triage.py (9 reasoned entries); dict insertion order.',
         'design_ref': 'DESIGN.md section 3, C18',
     },
@@ -205,7 +205,7 @@ CHECKS = {
                 'numbers index saved entries as k - len(labels) - 1; the axiom pattern loaded is the one main() declares; the stack top '
                 'is asserted to prove the target before publication; Interpreter.pattern nets +1 on every arm. NOT decided: the '
                 'converter\'s images of terms, notations and axioms, nor acceptance of any database (run-time data); proofs using other '
-                'proof rules are outside the stated fragment (reported as advisory).',
+                'proof rules are outside the stated fragment (reported as advisory). The numbering of the target\'s mandatory hypotheses and the label-list tokens are checked with C15\'s rules (the replay resolves the letters through them).',
         'note': 'Trusted: tracker effects (decided under C04), prelude statements in the benchmark databases, assumption that the '
                 'mandatory floats of a non-prelude label are get_metavars_in_order(label) and its essentials are the antecedents.',
         'design_ref': 'DESIGN.md section 3, C16',
@@ -222,7 +222,7 @@ CHECKS = {
                 'hypotheses are generated from; the scan and the label set are complete before anything is emitted; declarations come '
                 'first and the lemma block last; floating hypotheses leave in one in-order pass over the insertion-ordered container; '
                 'set iterations in the slicer are triaged by name. Round-trip identity and re-verification of the compressed proof '
-                'are not decided.',
+                'are not decided. A `$d` over n variables is recorded as all n(n-1)/2 pairs (the loop headers are evaluated over four abstract variables); the parse transformer, which remembers declared variables, is created per parse and never at import time.',
         'note': 'Trusted: python ast; the grammar is read from the `syntax` constant of metamath/parser.py.',
         'design_ref': 'DESIGN.md section 3, C17',
     },
@@ -235,7 +235,7 @@ CHECKS = {
                 'Notation.print_instantiation hands every argument, rendered with the caller\'s options, in position and unfiltered to '
                 'that format string. '
                 'The pretty printer and the serializer override the same 24 methods, each pretty override prints one terminated step '
-                'whose word is the opcode written. Injectivity of rendering in general is not decided.',
+                'whose word is the opcode written. Injectivity of rendering in general is not decided. Instantiate.instantiate rebuilds the argument map with all stored entries first in stored order and Notation.__call__ stores arguments by position (the renderer is positional); no interpreter wrapper tests the wrapped interpreter for a class that separates the binary serializer from the pretty printer.',
         'note': 'Trusted: python ast, str.format placeholder syntax. Known findings: equiv, sorted-exists, kore-exists.',
         'design_ref': 'DESIGN.md section 3, C19',
     },
